@@ -351,10 +351,13 @@ where
                                     }
                                 }
 
+                                // a descending range selects nothing
+                                let count = end.checked_sub(*start).and_then(|d| usize::try_from(d).ok()).map_or(0, |d| d.saturating_add(1));
+
                                 top_level_con_items
                                     .iter()
                                     .skip(*start as usize)
-                                    .take((end - start) as usize + 1)
+                                    .take(count)
                                     .map(usize::clone)
                                     .for_each(|i| items.push(i));
                             }
